@@ -27,8 +27,8 @@ def frame(name, **values):
     return QF.encode(name, values, widths)
 
 
-def ack(largest):
-    return frame("ACK", largest_acknowledged=largest, ack_delay=0, ack_ranges=[], first_ack_range=0)
+def ack(largest, ranges=()):
+    return frame("ACK", largest_acknowledged=largest, ack_delay=0, ack_ranges=list(ranges), first_ack_range=0)
 
 
 def crypto(offset, data, w_offset=None, w_len=None):
@@ -215,7 +215,7 @@ def build(cfg, src):
             payload = cat(stream(sid, data, offset=i), b"\x01", stream(sid + 4, d2, fin=True), bytes(2))
             sdata = cat(data, d2)
         else:   # "busy": ACK, PING, MAX_DATA, DATAGRAM, STREAM, PADDING
-            payload = cat(ack(i), b"\x01", frame("MAX_DATA", maximum_data=1000 + i), frame("DATAGRAM_LEN", payload=src.bytes("dg%d" % i, 1)),
+            payload = cat(ack(i + 9, [(2, 3)] if i % 2 == 0 else [(1, 1), (0, 2)]), b"\x01", frame("MAX_DATA", maximum_data=1000 + i), frame("DATAGRAM_LEN", payload=src.bytes("dg%d" % i, 1)),
                           stream(sid, data, offset=7 * i), bytes(2))
             sdata = data
         gap = cfg.get("pn_gap", 0)
